@@ -39,6 +39,17 @@ package main
 //   * the call `f(a, p, q)` of a function without results that assigns through pointer parameters other than its first
 //     is the assignment of what f returns to those arguments (voidCall);
 //   * `x.Logger.…(…)` calls are dropped, their receiver and arguments still evaluated for their dereferences;
+//   * values without a Lean term are dropped (Ty.dropped): the API client handle, a logger, locals of foreign types the subset
+//     does not know (`&corev1.PodList{}`).  What talks to the API server is an opaque, effect-free step whose results are
+//     synthetic parameters `apiResN`: a function declared opaque (fnSpec.opaque: only its signature is read), or a statement
+//     that uses the client handle (apiStep: a havoc of the paths it syntactically assigns — assumed to return normally and to
+//     change nothing else; refused when it declares locals, returns, or passes translated state by reference);
+//   * `delete(m, k)` / `len(m)` on association lists, `xs[:n]` (Go.sliceTo), builtin `min`, `time.Since`,
+//     `sort.SliceStable(xs, less)` (Go.stableSortBy, the comparator translated as a function of the two elements: sortStable),
+//     `a = f(…)` of a function that has Go results and also assigns through pointer parameters (callAssign);
+//   * a method with a pointer receiver (`func (r *Reconciler) applyStrategy`): the reconciler has no Lean term, `r.client` is the
+//     API client handle; a pointer variable that a branch of a conditional replaces as a whole is joined as the pointer itself
+//     (slotsW / wholeAssigned), not by the name of its pointee;
 //   * what the model's values do not carry is a synthetic, universally quantified parameter:
 //     pointer identity (`samePtr`), nil-ness of an empty slice (`nilSlice`), each `time.Now()` (`wallNowN`; a read of the
 //     clock inside a loop is one instant per iteration, `wallNowN : Int → Int` applied to the iteration index; a call of a
@@ -62,13 +73,19 @@ type trErr string
 func dieT(format string, a ...interface{}) { panic(trErr(fmt.Sprintf(format, a...))) }
 
 type Ty struct {
-	K string // bool int str dur time smap ios ptr struct list map nil unit
+	K string // bool int str dur time smap ios ptr struct list map nil unit; api logger opaque (no Lean term, see dropped)
 	E *Ty
 	N string
 	// K == "map": the key type (E is the value type).  A Go map other than map[string]string is an association
 	// list `List (κ × ν)` looked up with the key equality of its key type (keyEq)
 	Key *Ty
 }
+
+// dropped: values that have no Lean term — the API client handle (`client.Client`), a logger (`logr.Logger`), and locals whose
+// type is outside the subset (`&corev1.PodList{}`, `[]runtimeclient.ListOption{…}`: "opaque").  Parameters of these types
+// are not parameters of the translated function, arguments of these types are not passed; they may only be mentioned by
+// logger calls and API steps (apiStep).
+func (t Ty) dropped() bool { return t.K == "api" || t.K == "logger" || t.K == "opaque" }
 
 func tBool() Ty { return Ty{K: "bool"} }
 func tInt() Ty  { return Ty{K: "int"} }
@@ -133,12 +150,23 @@ type structDef struct {
 	lean   string
 	order  []string
 	fields map[string]field
+	// fields whose Lean declaration has a default equal to Go's zero value: a composite literal / zero value that does
+	// not give them leaves them out (so that adding such a field does not change the text generated for older groups)
+	defaulted map[string]bool
 }
 
 var structs = map[string]*structDef{}
 
+// defaultedField adds a field that composite literals leave out when they do not give it (structDef.defaulted)
+func defaultedField(st, goName, lean string, ty Ty) {
+	sd := structs[st]
+	sd.order = append(sd.order, goName)
+	sd.fields[goName] = field{lean, ty}
+	sd.defaulted[goName] = true
+}
+
 func defStruct(lean string, fs ...interface{}) {
-	sd := &structDef{lean: lean, fields: map[string]field{}}
+	sd := &structDef{lean: lean, fields: map[string]field{}, defaulted: map[string]bool{}}
 	for i := 0; i < len(fs); i += 3 {
 		g := fs[i].(string)
 		sd.order = append(sd.order, g)
@@ -240,6 +268,17 @@ func initTables() {
 		"Result", "result", tStruct("GReconcileResult"))
 	defStruct("GReconcileResult", "Requeue", "requeue", tBool(), "RequeueAfter", "requeueAfter", tDur())
 	defStruct("Setting", "Name", "name", tStr(), "Namespace", "ns", tStr(), "CreationTimestamp", "creation", tTime())
+	// groups Deployment / Unknown (ManageDeployment, ManageUnknown): the remaining fields of Parameters / Result they touch,
+	// and limits.Parameters (EdsModel/Generated/Limits.lean, generated by genLimits from limits.go)
+	defaultedField("GParams", "PodToCleanUp", "podToCleanUp", tList(tPtr(tStruct("GPod"))))
+	defaultedField("GParams", "UnscheduledPods", "unscheduledPods", tList(tPtr(tStruct("GPod"))))
+	defaultedField("GParams", "ReplicaSetStatus", "replicaSetStatus", tStr())
+	defaultedField("GResult", "UnscheduledNodesDueToResourcesConstraints", "unscheduledNodes", tList(tStr()))
+	defStruct("Generated.Limits.Parameters", "NbNodes", "NbNodes", tInt(), "NbPods", "NbPods", tInt(),
+		"NbAvailablesPod", "NbAvailablesPod", tInt(), "NbOldAvailablesPod", "NbOldAvailablesPod", tInt(),
+		"NbCreatedPod", "NbCreatedPod", tInt(), "NbUnresponsiveNodes", "NbUnresponsiveNodes", tInt(),
+		"NbOldUnavailablePods", "NbOldUnavailablePods", tInt(), "MaxPodCreation", "MaxPodCreation", tInt(),
+		"MaxUnavailablePod", "MaxUnavailablePod", tInt(), "MaxUnschedulablePod", "MaxUnschedulablePod", tInt())
 
 	namedTypes = map[string]Ty{
 		"ExtendedDaemonSet":                                 tStruct("GEds"),
@@ -296,6 +335,11 @@ type fnSpec struct {
 	// The statement is translated as a function of its own (fragmentDecl): its parameters are the parameters and
 	// locals of the enclosing function it mentions, its results the locals it assigns
 	fragment string
+	// an API-calling function of the repository that is not translated (`deletePodSlice`: goroutines, client.Delete): only
+	// its signature is read.  A call evaluates the arguments (for their dereferences) and yields a fresh synthetic parameter
+	// `apiResN` of the caller for its results: an opaque, effect-free step — it is assumed to return normally and to assign
+	// nothing through its arguments
+	opaque bool
 }
 
 type fnInfo struct {
@@ -327,6 +371,10 @@ type fnInfo struct {
 	// a fragment (fnSpec.fragment): the line of the statement, the locals it returns
 	fragLine    int
 	fragResults []string
+	// synthetic parameters `apiRes1 …` standing for what API steps leave behind (see tr.newAPI): their types and what each
+	// stands for
+	apiTys []Ty
+	apiDoc []string
 }
 
 type bind struct{ v, m string }
@@ -368,7 +416,21 @@ type tr struct {
 	loopIdx []string
 	// named types declared in the translated files (`type sortPodByNodeName []*corev1.Pod`)
 	localTypes map[string]ast.Expr
+	// API steps of the current function: the synthetic parameters `apiResN` (types, what they stand for)
+	apiTys []Ty
+	apiDoc []string
+	// > 0 while the initialiser of an opaque local is walked for its dereferences (calls of foreign functions allowed)
+	opaqueCtx int
+	// set while the comparator of `sort.SliceStable(xs, func(i, j int) bool { … })` is translated: `xs[i]` / `xs[j]` are the
+	// two elements compared
+	less *lessCtx
+	// the repository (to tell its packages from foreign ones)
+	repo string
+	// the current function has a parameter of type client.Client
+	hasAPI bool
 }
+
+type lessCtx struct{ slice, i, j, a, b string }
 
 type loopCtx struct{ cont, brk func() string }
 
@@ -482,8 +544,16 @@ func (t *tr) goType(e ast.Expr) Ty {
 		if u, ok := t.localTypes[x.Name]; ok {
 			return t.goType(u)
 		}
+		if x.Name == "Reconciler" {
+			// the reconciler: the holder of the API client (`r.client`); nothing else of it is in the subset
+			return Ty{K: "api"}
+		}
 	case *ast.StarExpr:
-		return tPtr(t.goType(x.X))
+		if inner := t.goType(x.X); inner.dropped() {
+			return inner // `*Reconciler`: no Lean term either
+		} else {
+			return tPtr(inner)
+		}
 	case *ast.SelectorExpr:
 		if p, ok := x.X.(*ast.Ident); ok {
 			switch p.Name + "." + x.Sel.Name {
@@ -493,6 +563,12 @@ func (t *tr) goType(e ast.Expr) Ty {
 				return tDur()
 			case "reconcile.Result":
 				return tStruct("GReconcileResult")
+			case "client.Client", "runtimeclient.Client":
+				return Ty{K: "api"}
+			case "logr.Logger":
+				return Ty{K: "logger"}
+			case "limits.Parameters":
+				return tStruct("Generated.Limits.Parameters")
 			}
 			if ty, ok := namedTypes[x.Sel.Name]; ok {
 				return ty
@@ -547,6 +623,9 @@ func zero(ty Ty) string {
 		sd := structs[ty.N]
 		var parts []string
 		for _, g := range sd.order {
+			if sd.defaulted[g] {
+				continue
+			}
 			f := sd.fields[g]
 			parts = append(parts, f.lean+" := "+zero(f.ty))
 		}
@@ -588,6 +667,9 @@ func (t *tr) deref(v val, n ast.Node) val {
 }
 
 func (t *tr) sel(v val, name string, n ast.Node) val {
+	if v.ty.K == "api" && name == "client" {
+		return v // `r.client`: the API client handle of the reconciler
+	}
 	if v.ty.K == "ptr" {
 		v = t.deref(v, n)
 	}
@@ -604,6 +686,9 @@ func (t *tr) sel(v val, name string, n ast.Node) val {
 		sd := structs[v.ty.N]
 		if f, ok := sd.fields[name]; ok {
 			return val{binds: v.binds, term: v.term + "." + f.lean, ty: f.ty}
+		}
+		if name == "Logger" && v.ty.N == "GParams" {
+			return val{binds: v.binds, term: "()", ty: Ty{K: "logger"}} // no Lean term; the dereference in front of it stays
 		}
 		if name == "ObjectMeta" {
 			return v // the embedded metadata: its fields are the object's own
@@ -706,6 +791,12 @@ func (t *tr) ex(e ast.Expr) val {
 			return pure(x.Name, tBool())
 		}
 		if f, ok := t.lookup(x.Name); ok {
+			if f.ty.dropped() {
+				if f.ty.K == "opaque" && t.opaqueCtx == 0 {
+					dieT("gotolean: the opaque local %s is used outside an API step at %s", x.Name, pos(x))
+				}
+				return pure("()", f.ty)
+			}
 			if f.ty.K == "ptr" {
 				if a := t.aliasOf(x.Name); a != "" {
 					return val{term: "(some " + a + ")", ty: f.ty, ptrVar: x.Name}
@@ -732,6 +823,9 @@ func (t *tr) ex(e ast.Expr) val {
 			return val{binds: v.binds, term: "(-" + v.term + ")", ty: v.ty}
 		case token.AND:
 			v := t.ex(x.X)
+			if v.ty.K == "opaque" {
+				return v
+			}
 			pv := v
 			return val{binds: v.binds, term: "(some " + v.term + ")", ty: tPtr(v.ty), pointee: &pv}
 		}
@@ -741,7 +835,33 @@ func (t *tr) ex(e ast.Expr) val {
 		return t.call(x)
 	case *ast.CompositeLit:
 		return t.composite(x)
+	case *ast.SliceExpr:
+		// xs[:n]: `none` when n is negative or beyond the length (Go allows n up to the capacity — the elements of the
+		// backing array beyond the length; a list has no backing array)
+		if x.Low != nil || x.High == nil || x.Slice3 {
+			dieT("gotolean: slice expression other than xs[:n] at %s", pos(x))
+		}
+		l, n := t.ex(x.X), t.ex(x.High)
+		if l.ty.K != "list" {
+			dieT("gotolean: slice expression on a non-slice at %s", pos(x))
+		}
+		bs := append(append([]bind{}, l.binds...), n.binds...)
+		r := t.tmp("s")
+		bs = append(bs, bind{r, "(Go.sliceTo " + l.term + " " + n.term + ")"})
+		return val{binds: bs, term: r, ty: l.ty}
 	case *ast.IndexExpr:
+		if lc := t.less; lc != nil {
+			// inside the comparator of sort.SliceStable(xs, …): xs[i] / xs[j] are the two elements compared
+			if sl, ok := x.X.(*ast.Ident); ok && sl.Name == lc.slice {
+				if ix, ok := x.Index.(*ast.Ident); ok && (ix.Name == lc.i || ix.Name == lc.j) {
+					f, _ := t.lookup(lc.slice)
+					if ix.Name == lc.i {
+						return pure(lc.a, *f.ty.E)
+					}
+					return pure(lc.b, *f.ty.E)
+				}
+			}
+		}
 		m := t.ex(x.X)
 		k := t.ex(x.Index)
 		bs := append(append([]bind{}, m.binds...), k.binds...)
@@ -893,7 +1013,69 @@ func zeroLit(e ast.Expr) bool {
 	return ok && len(c.Elts) == 0
 }
 
+// foreignPkg: the import alias names a package outside the repository
+func (t *tr) foreignPkg(alias string) bool {
+	if t.cur == nil {
+		return false
+	}
+	path, ok := t.cur.imports[alias]
+	if !ok {
+		return false
+	}
+	st, err := os.Stat(filepath.Join(t.repo, path))
+	return err != nil || !st.IsDir()
+}
+
+// opaqueType: `pkg.Name`, `[]pkg.Name`, `*pkg.Name` of a foreign package whose type the subset does not know
+// (`corev1.PodList`, `[]runtimeclient.ListOption`, `runtimeclient.MatchingLabels`)
+func (t *tr) opaqueType(e ast.Expr) bool {
+	switch x := e.(type) {
+	case *ast.StarExpr:
+		return t.opaqueType(x.X)
+	case *ast.ArrayType:
+		return x.Len == nil && t.opaqueType(x.Elt)
+	case *ast.SelectorExpr:
+		p, ok := x.X.(*ast.Ident)
+		if !ok || !t.foreignPkg(p.Name) {
+			return false
+		}
+		if _, known := namedTypes[x.Sel.Name]; known {
+			return false
+		}
+		switch p.Name + "." + x.Sel.Name {
+		case "time.Time", "metav1.Time", "time.Duration", "metav1.Duration", "reconcile.Result", "client.Client", "runtimeclient.Client", "logr.Logger":
+			return false
+		}
+		return true
+	}
+	return false
+}
+
+// opaqueLit: a composite literal of an opaque type has no Lean term; its elements (keys and values) are evaluated for
+// their dereferences, calls of foreign functions among them included (opaqueCtx)
+func (t *tr) opaqueLit(x *ast.CompositeLit) val {
+	t.opaqueCtx++
+	defer func() { t.opaqueCtx-- }()
+	var bs []bind
+	for _, el := range x.Elts {
+		if kv, ok := el.(*ast.KeyValueExpr); ok {
+			if _, isId := kv.Key.(*ast.Ident); !isId {
+				bs = append(bs, t.ex(kv.Key).binds...)
+			} else if _, isLocal := t.lookup(kv.Key.(*ast.Ident).Name); isLocal {
+				bs = append(bs, t.ex(kv.Key).binds...)
+			}
+			bs = append(bs, t.ex(kv.Value).binds...)
+			continue
+		}
+		bs = append(bs, t.ex(el).binds...)
+	}
+	return val{binds: bs, term: "()", ty: Ty{K: "opaque"}}
+}
+
 func (t *tr) composite(x *ast.CompositeLit) val {
+	if t.opaqueType(x.Type) {
+		return t.opaqueLit(x)
+	}
 	ty := t.goType(x.Type)
 	switch ty.K {
 	case "dur": // metav1.Duration{Duration: d}
@@ -936,7 +1118,7 @@ func (t *tr) composite(x *ast.CompositeLit) val {
 			f := sd.fields[g]
 			if v, ok := given[g]; ok {
 				parts = append(parts, f.lean+" := "+v.term)
-			} else {
+			} else if !sd.defaulted[g] {
 				parts = append(parts, f.lean+" := "+zero(f.ty))
 			}
 		}
@@ -961,6 +1143,65 @@ func (t *tr) newWall(n ast.Node) string {
 	}
 	dieT("gotolean: the wall clock is read in a nested loop at %s", pos(n))
 	return ""
+}
+
+// newAPI: what an API step leaves behind is a synthetic parameter of the translated function, in source order
+// (`apiRes1 …`), universally quantified in the bridges; `doc` says what it stands for.
+func (t *tr) newAPI(ty Ty, doc string, n ast.Node) string {
+	if len(t.loopIdx) > 0 {
+		dieT("gotolean: an API step inside a loop at %s", pos(n))
+	}
+	t.apiTys = append(t.apiTys, ty)
+	t.apiDoc = append(t.apiDoc, doc)
+	return fmt.Sprintf("apiRes%d", len(t.apiTys))
+}
+
+// applied: the application of the translated function fi to the arguments of the call x (evaluated in Go's order;
+// arguments without a Lean term — the API client, a logger — are not passed), followed by the synthetic arguments: the
+// caller's `nilSlice`, one read of the caller's clock per read of the callee, one API parameter of the caller per API
+// parameter of the callee.
+func (t *tr) applied(fi *fnInfo, x *ast.CallExpr) ([]bind, string) {
+	var bs []bind
+	var as []string
+	for _, a := range x.Args {
+		v := t.ex(a)
+		bs = append(bs, v.binds...)
+		switch {
+		case v.ty.dropped():
+		case v.ty.K == "nil":
+			as = append(as, "none")
+		default:
+			as = append(as, v.term)
+		}
+	}
+	if fi.spec.ptrEq != "" {
+		dieT("gotolean: call of a function with a pointer-identity parameter at %s", pos(x))
+	}
+	if fi.needsNil {
+		// the nil-ness of an empty slice is not represented: the caller's own parameter stands for it
+		t.needsNil = true
+		as = append(as, "nilSlice")
+	}
+	// every wall-clock read of the callee is a wall-clock read of the caller (at this call)
+	for i := 0; i < fi.nowN; i++ {
+		if i < len(fi.nowFn) && fi.nowFn[i] {
+			// the callee reads the clock once per iteration of a loop of its own (a function of the iteration index): outside
+			// any loop of the caller that function is a parameter of the caller, passed on as it is
+			if len(t.loopIdx) > 0 {
+				dieT("gotolean: call of a function that reads the wall clock in a loop, inside a loop, at %s", pos(x))
+			}
+			t.nowN++
+			t.nowFn = append(t.nowFn, true)
+			as = append(as, fmt.Sprintf("wallNow%d", t.nowN))
+			continue
+		}
+		as = append(as, t.newWall(x))
+	}
+	// every API step of the callee is an API step of the caller (at this call)
+	for i, ty := range fi.apiTys {
+		as = append(as, t.newAPI(ty, fi.apiDoc[i]+fmt.Sprintf(", in the call of `%s` at line %d", fi.spec.goName, fset.Position(x.Pos()).Line), x))
+	}
+	return bs, "(" + fi.spec.leanName + " " + strings.Join(as, " ") + ")"
 }
 
 func (t *tr) call(x *ast.CallExpr) val {
@@ -1017,6 +1258,8 @@ func (t *tr) call(x *ast.CallExpr) val {
 				return r
 			case m == "GetName":
 				return t.sel(val{binds: bs, term: recv.term, ty: recv.ty}, "Name", x)
+			case m == "GetNamespace":
+				return t.sel(val{binds: bs, term: recv.term, ty: recv.ty}, "Namespace", x)
 			}
 			dieT("gotolean: unsupported method %s at %s", m, pos(x))
 		}
@@ -1052,10 +1295,29 @@ func (t *tr) call(x *ast.CallExpr) val {
 		if vs[0].ty.K == "str" {
 			return val{binds: bs, term: "(Go.strLen " + vs[0].term + ")", ty: tInt()}
 		}
-		if vs[0].ty.K != "list" {
+		if vs[0].ty.K != "list" && vs[0].ty.K != "map" {
+			// len of a map: the number of entries of the association list (a Go map has one entry per key: the bridges
+			// assume the keys of the list distinct)
 			dieT("gotolean: len of a non-slice at %s", pos(x))
 		}
 		return val{binds: bs, term: "(Int.ofNat (List.length " + vs[0].term + "))", ty: tInt()}
+	}
+	if name == "min" && len(x.Args) == 2 {
+		vs, bs := args()
+		if vs[0].ty.K != "int" || vs[1].ty.K != "int" {
+			dieT("gotolean: min of non-integers at %s", pos(x))
+		}
+		return val{binds: bs, term: "(min " + vs[0].term + " " + vs[1].term + ")", ty: tInt()}
+	}
+	if name == "time.Since" && len(x.Args) == 1 {
+		// time.Since(t) = time.Now().Sub(t): a read of the wall clock
+		v := t.ex(x.Args[0])
+		return val{binds: v.binds, term: "(" + t.newWall(x) + " - " + v.term + ")", ty: tDur()}
+	}
+	if name == "limits.CalculatePodToCreateAndDelete" && len(x.Args) == 1 {
+		// translated by genLimits (EdsModel/Generated/Limits.lean): straight-line integer code, no panic
+		v := t.ex(x.Args[0])
+		return val{binds: v.binds, term: "(Generated.Limits.calculatePodToCreateAndDelete " + v.term + ")", ty: Ty{K: "tuple"}}
 	}
 	if name == "fmt.Sprintf" {
 		return t.sprintf(x)
@@ -1116,36 +1378,22 @@ func (t *tr) call(x *ast.CallExpr) val {
 	}
 	// translated functions
 	if fi, ok := t.resolve(splitQual(name)); ok {
-		vs, bs := args()
-		var as []string
-		for i, v := range vs {
-			if v.ty.K == "nil" {
-				as = append(as, "none")
-			} else {
-				as = append(as, v.term)
+		if fi.spec.opaque {
+			// an API-calling function that is not translated: the arguments are evaluated, the result is a parameter
+			if len(fi.results) != 1 {
+				dieT("gotolean: opaque function %s with other than one result at %s", fi.spec.goName, pos(x))
 			}
-			_ = i
-		}
-		if fi.spec.ptrEq != "" {
-			dieT("gotolean: call of a function with a pointer-identity parameter at %s", pos(x))
+			_, bs := args()
+			r := t.newAPI(fi.results[0], fmt.Sprintf("the result of `%s(…)` (line %d of `%s`; not translated: assumed to return normally and to assign nothing through its arguments)",
+				fi.spec.goName, fset.Position(x.Pos()).Line, t.cur.spec.goName), x)
+			return val{binds: bs, term: r, ty: fi.results[0]}
 		}
 		if len(fi.retParams) > 0 && !fi.mutator {
 			dieT("gotolean: call of a function that assigns through several / later pointer arguments at %s", pos(x))
 		}
-		if fi.needsNil {
-			// the nil-ness of an empty slice is not represented: the caller's own parameter stands for it
-			t.needsNil = true
-			as = append(as, "nilSlice")
-		}
-		// every wall-clock read of the callee is a wall-clock read of the caller (at this call)
-		for i := 0; i < fi.nowN; i++ {
-			if i < len(fi.nowFn) && fi.nowFn[i] {
-				dieT("gotolean: call of a function that reads the wall clock in a loop at %s", pos(x))
-			}
-			as = append(as, t.newWall(x))
-		}
+		bs, app := t.applied(fi, x)
 		r := t.tmp("r")
-		bs = append(bs, bind{r, "(" + fi.spec.leanName + " " + strings.Join(as, " ") + ")"})
+		bs = append(bs, bind{r, app})
 		if len(fi.results) == 1 {
 			return val{binds: bs, term: r, ty: fi.results[0]}
 		}
@@ -1178,6 +1426,16 @@ func (t *tr) call(x *ast.CallExpr) val {
 	case "intstrutil.GetValueFromIntOrPercent":
 		// (value, error): the error is `none` of resolveIntOrPercent
 		return val{binds: bs, term: "(Go.valueFromIntOrPercent " + vs[0].term + " " + vs[1].term + ")", ty: Ty{K: "tuple"}}
+	case "utilserrors.NewAggregate":
+		// nil when the list holds no (non-nil) error
+		if len(vs) == 1 && vs[0].ty.K == "list" && vs[0].ty.E.K == "ptr" && vs[0].ty.E.E.K == "str" {
+			return val{binds: bs, term: "(Go.newAggregate " + vs[0].term + ")", ty: tPtr(tStr())}
+		}
+	}
+	if p, _ := splitQual(name); p != "" && t.opaqueCtx > 0 && t.foreignPkg(p) {
+		// inside the initialiser of an opaque local: a call of a foreign function (`runtimeclient.InNamespace(…)`) has no
+		// Lean term; its arguments have been evaluated for their dereferences
+		return val{binds: bs, term: "()", ty: Ty{K: "opaque"}}
 	}
 	dieT("gotolean: unsupported call %s at %s", name, pos(x))
 	return val{}
@@ -1280,6 +1538,18 @@ func (t *tr) assigned(list []ast.Stmt) []string {
 						set[r] = true
 					}
 				}
+				// `err = f(x, p.F)` where f also assigns through pointer parameters (callAssign)
+				if len(s.Rhs) == 1 {
+					if c, ok := s.Rhs[0].(*ast.CallExpr); ok {
+						for _, a := range t.retArgs(c) {
+							if r := root(a); r != "" {
+								if _, ok := t.lookup(r); ok {
+									set[r] = true
+								}
+							}
+						}
+					}
+				}
 			case *ast.IncDecStmt:
 				if r := root(s.X); r != "" {
 					if _, ok := t.lookup(r); ok {
@@ -1288,7 +1558,7 @@ func (t *tr) assigned(list []ast.Stmt) []string {
 				}
 			case *ast.ExprStmt:
 				if c, ok := s.X.(*ast.CallExpr); ok && len(c.Args) > 0 {
-					if isDeleteCall(c) {
+					if isDeleteCall(c) || (calleeName(c) == "sort.SliceStable" && len(c.Args) == 2) {
 						if r := root(c.Args[0]); r != "" {
 							if _, ok := t.lookup(r); ok {
 								set[r] = true
@@ -1385,17 +1655,55 @@ type slot struct {
 	viaAlias bool
 }
 
-func (t *tr) slots(names []string) []slot {
+func (t *tr) slots(names []string) []slot { return t.slotsW(names, nil) }
+
+// slotsW: as slots; a pointer variable the joined statements assign as a whole (`p = q`, `r, err = f(…, p)` where f returns
+// what it left behind p: wholeAssigned) is joined as the pointer itself even when its pointee has a name — that name is
+// stale in a branch that replaced the pointer.
+func (t *tr) slotsW(names []string, whole map[string]bool) []slot {
 	var out []slot
 	for _, n := range names {
 		f, _ := t.lookup(n)
-		if f.ty.K == "ptr" {
+		if f.ty.K == "ptr" && !whole[n] {
 			if a := t.aliasOf(n); a != "" {
 				out = append(out, slot{n, a, *f.ty.E, true})
 				continue
 			}
 		}
 		out = append(out, slot{n, f.lean, f.ty, false})
+	}
+	return out
+}
+
+// wholeAssigned: the pointer locals a statement list assigns as a whole: `p = e`, or `p` passed to a function that has Go
+// results and assigns through that parameter (callAssign assigns what the function returns for it back to `p`)
+func (t *tr) wholeAssigned(list []ast.Stmt) map[string]bool {
+	out := map[string]bool{}
+	mark := func(e ast.Expr) {
+		if id, ok := e.(*ast.Ident); ok {
+			if f, ok := t.lookup(id.Name); ok && f.ty.K == "ptr" {
+				out[id.Name] = true
+			}
+		}
+	}
+	for _, st := range list {
+		ast.Inspect(st, func(m ast.Node) bool {
+			if as, ok := m.(*ast.AssignStmt); ok {
+				if as.Tok != token.DEFINE {
+					for _, l := range as.Lhs {
+						mark(l)
+					}
+				}
+				if len(as.Rhs) == 1 {
+					if c, ok := as.Rhs[0].(*ast.CallExpr); ok {
+						for _, a := range t.retArgs(c) {
+							mark(a)
+						}
+					}
+				}
+			}
+			return true
+		})
 	}
 	return out
 }
@@ -1516,6 +1824,14 @@ func (t *tr) block(list []ast.Stmt, fall func() string) string {
 		return fall()
 	}
 	rest := func() string { return t.block(list[1:], fall) }
+	if t.mentionsAPI(list[0]) {
+		// a statement that talks to the API server through the client handle is an opaque step (apiStep), unless it is an
+		// `if` whose condition does not: then its branches are translated and the steps are inside them
+		is, isIf := list[0].(*ast.IfStmt)
+		if !(isIf && (is.Init == nil || !t.mentionsAPI(is.Init)) && !t.mentionsAPI(is.Cond)) {
+			return t.apiStep(list[0], rest)
+		}
+	}
 	switch s := list[0].(type) {
 	case *ast.ReturnStmt:
 		var bs []bind
@@ -1617,11 +1933,32 @@ func (t *tr) block(list []ast.Stmt, fall func() string) string {
 			}
 			if isDeleteCall(c) {
 				m, k := t.ex(c.Args[0]), t.ex(c.Args[1])
-				if m.ty.K != "smap" {
-					dieT("gotolean: delete on something other than a string map at %s", pos(s))
-				}
 				bs := append(append([]bind{}, m.binds...), k.binds...)
+				if m.ty.K == "map" {
+					// delete(m, k) on an association list: every entry whose key is `==` k goes
+					kt := k.term
+					if k.ty.K == "nil" {
+						kt = "none"
+					}
+					return wrap(bs, t.assignPath(c.Args[0], "(Go.mapErase "+keyEq(*m.ty.Key, s)+" "+m.term+" "+kt+")", rest))
+				}
+				if m.ty.K != "smap" {
+					dieT("gotolean: delete on something other than a map at %s", pos(s))
+				}
 				return wrap(bs, t.assignPath(c.Args[0], "(SMap.erase "+m.term+" "+k.term+")", rest))
+			}
+			if calleeName(c) == "sort.SliceStable" && len(c.Args) == 2 {
+				return t.sortStable(c, rest)
+			}
+			if pkg, _ := splitQual(calleeName(c)); pkg != "" && t.cur.imports[pkg] == "pkg/controller/metrics" {
+				// a metric update: no effect on the translated state; the arguments are still evaluated
+				if _, isLocal := t.lookup(pkg); !isLocal {
+					var bs []bind
+					for _, a := range c.Args {
+						bs = append(bs, t.ex(a).binds...)
+					}
+					return wrap(bs, rest())
+				}
 			}
 		}
 		if !ok || !t.isMutatorCall(c) {
@@ -1656,6 +1993,413 @@ func (t *tr) block(list []ast.Stmt, fall func() string) string {
 	return ""
 }
 
+// assignTargets: the expressions a statement assigns to or through (`x = …`, `x.F = …`, `x++`, `delete(x.M, k)`,
+// `sort.SliceStable(x, …)`, a mutator call on `x` / `&x.F`, the pointer arguments a called function assigns through)
+func (t *tr) assignTargets(n ast.Node) []ast.Expr {
+	var out []ast.Expr
+	ast.Inspect(n, func(m ast.Node) bool {
+		switch y := m.(type) {
+		case *ast.AssignStmt:
+			for _, l := range y.Lhs {
+				if _, isIdent := l.(*ast.Ident); isIdent && y.Tok == token.DEFINE {
+					continue
+				}
+				out = append(out, l)
+			}
+			if len(y.Rhs) == 1 {
+				if c, ok := y.Rhs[0].(*ast.CallExpr); ok {
+					out = append(out, t.retArgs(c)...)
+				}
+			}
+		case *ast.IncDecStmt:
+			out = append(out, y.X)
+		case *ast.ExprStmt:
+			c, ok := y.X.(*ast.CallExpr)
+			if !ok || len(c.Args) == 0 {
+				return true
+			}
+			switch {
+			case isDeleteCall(c), calleeName(c) == "sort.SliceStable" && len(c.Args) == 2:
+				out = append(out, c.Args[0])
+			case t.isMutatorCall(c):
+				a := c.Args[0]
+				if u, ok := a.(*ast.UnaryExpr); ok && u.Op == token.AND {
+					a = u.X
+				}
+				out = append(out, a)
+			default:
+				if _, idx, isVoid := t.voidCallee(c); isVoid {
+					for _, i := range idx {
+						out = append(out, c.Args[i])
+					}
+				}
+			}
+		}
+		return true
+	})
+	return out
+}
+
+// retArgs: the arguments of a call `f(…)` used as a value that f assigns through (f has Go results and also returns
+// pointer parameters: callAssign); nil for any other call
+func (t *tr) retArgs(c *ast.CallExpr) []ast.Expr {
+	pkg, base := splitQual(calleeName(c))
+	if base == "" {
+		return nil
+	}
+	if pkg != "" {
+		if _, isLocal := t.lookup(pkg); isLocal {
+			return nil
+		}
+	}
+	fi, ok := t.resolve(pkg, base)
+	if !ok || fi.spec.opaque || fi.mutator || fi.nGo == 0 || len(fi.retParams) == 0 {
+		return nil
+	}
+	idx, ok := retArgIndex(fi, c)
+	if !ok {
+		return nil
+	}
+	var out []ast.Expr
+	for _, i := range idx {
+		out = append(out, c.Args[i])
+	}
+	return out
+}
+
+// mentionsAPI: the statement / expression uses the API client handle (a parameter of type client.Client) other than by
+// passing it on to a function this group translates (or declares opaque)
+func (t *tr) mentionsAPI(n ast.Node) bool {
+	if !t.hasAPI {
+		return false // the function has no API client handle
+	}
+	found := false
+	isAPI := func(e ast.Expr) bool {
+		if se, ok := e.(*ast.SelectorExpr); ok && se.Sel.Name == "client" {
+			e = se.X // `r.client`
+		}
+		id, ok := e.(*ast.Ident)
+		if !ok {
+			return false
+		}
+		f, ok := t.lookup(id.Name)
+		return ok && f.ty.K == "api"
+	}
+	var walk func(n ast.Node)
+	walk = func(n ast.Node) {
+		ast.Inspect(n, func(m ast.Node) bool {
+			if found {
+				return false
+			}
+			switch y := m.(type) {
+			case *ast.CallExpr:
+				if pkg, base := splitQual(calleeName(y)); base != "" {
+					_, isLocal := t.lookup(pkg)
+					if pkg == "" || !isLocal {
+						if _, ok := t.resolve(pkg, base); ok {
+							for _, a := range y.Args {
+								if !isAPI(a) {
+									walk(a)
+								}
+							}
+							return false
+						}
+					}
+				}
+			case *ast.SelectorExpr:
+				walk(y.X)
+				return false
+			case *ast.KeyValueExpr:
+				walk(y.Value)
+				return false
+			case *ast.Ident:
+				if isAPI(y) {
+					found = true
+				}
+			}
+			return true
+		})
+	}
+	walk(n)
+	return found
+}
+
+// tryEx: the value of an expression if it is in the subset (no effect on the translation state but the fresh-name counter)
+func (t *tr) tryEx(e ast.Expr) (v val, ok bool) {
+	t.push()
+	defer t.pop()
+	defer func() {
+		if r := recover(); r != nil {
+			if _, isT := r.(trErr); !isT {
+				panic(r)
+			}
+			ok = false
+		}
+	}()
+	return t.ex(e), true
+}
+
+// apiStep: a statement that talks to the API server through the client handle (`if err = client.List(…); err != nil { … }
+// else { for … { deletePodLabel(…, client, …) } }`) is not translated.  It is an opaque step: assumed to return normally
+// (no panic, no `return` — refused) and to change nothing of the translated state but the paths it syntactically assigns
+// (`err`, `result.Result.Requeue`), each of which holds an arbitrary value afterwards — a fresh synthetic parameter
+// `apiResN` of the translated function, universally quantified in the bridges.  Refused: a step that declares locals
+// visible after it, that assigns through a pointer not dereferenced before, or that passes translated state by reference
+// to a call (it could be changed behind the translation's back).
+func (t *tr) apiStep(s ast.Stmt, rest func() string) string {
+	line := fset.Position(s.Pos()).Line
+	switch d := s.(type) {
+	case *ast.AssignStmt:
+		if d.Tok == token.DEFINE {
+			dieT("gotolean: an API step that declares locals at %s", pos(s))
+		}
+	case *ast.DeclStmt:
+		dieT("gotolean: an API step that declares locals at %s", pos(s))
+	}
+	if hasReturn(s) {
+		dieT("gotolean: an API step that returns or branches out at %s", pos(s))
+	}
+	// names declared inside the statement (they hide outer locals of the same name)
+	inner := map[string]bool{}
+	ast.Inspect(s, func(m ast.Node) bool {
+		switch y := m.(type) {
+		case *ast.AssignStmt:
+			if y.Tok == token.DEFINE {
+				for _, l := range y.Lhs {
+					if id, ok := l.(*ast.Ident); ok {
+						inner[id.Name] = true
+					}
+				}
+			}
+		case *ast.RangeStmt:
+			if y.Tok != token.DEFINE && (y.Key != nil || y.Value != nil) {
+				dieT("gotolean: range with assignment to existing variables at %s", pos(y))
+			}
+			for _, e := range []ast.Expr{y.Key, y.Value} {
+				if id, ok := e.(*ast.Ident); ok {
+					inner[id.Name] = true
+				}
+			}
+		case *ast.ValueSpec:
+			for _, n := range y.Names {
+				inner[n.Name] = true
+			}
+		case *ast.FuncLit:
+			dieT("gotolean: a function literal inside an API step at %s", pos(y))
+		}
+		return true
+	})
+	var rootOf func(e ast.Expr) string
+	rootOf = func(e ast.Expr) string {
+		switch x := e.(type) {
+		case *ast.SelectorExpr:
+			return rootOf(x.X)
+		case *ast.StarExpr:
+			return rootOf(x.X)
+		case *ast.ParenExpr:
+			return rootOf(x.X)
+		case *ast.IndexExpr:
+			return rootOf(x.X)
+		case *ast.Ident:
+			return x.Name
+		}
+		return ""
+	}
+	outer := func(e ast.Expr) (field, bool) {
+		r := rootOf(e)
+		if r == "" || r == "_" || inner[r] {
+			return field{}, false
+		}
+		f, ok := t.lookup(r)
+		return f, ok && !f.ty.dropped()
+	}
+	// the paths it assigns
+	targets := map[string]ast.Expr{}
+	addTarget := func(e ast.Expr) {
+		if _, ok := outer(e); !ok {
+			return
+		}
+		p := selString(e)
+		if p == "" {
+			dieT("gotolean: an API step assigns to something other than a variable or a field path at %s", pos(e))
+		}
+		targets[p] = e
+	}
+	ast.Inspect(s, func(m ast.Node) bool {
+		switch y := m.(type) {
+		case *ast.AssignStmt:
+			for _, l := range y.Lhs {
+				if _, isIdent := l.(*ast.Ident); isIdent && y.Tok == token.DEFINE {
+					continue
+				}
+				addTarget(l)
+			}
+			if len(y.Rhs) == 1 {
+				if c, ok := y.Rhs[0].(*ast.CallExpr); ok {
+					for _, a := range t.retArgs(c) {
+						addTarget(a)
+					}
+				}
+			}
+		case *ast.IncDecStmt:
+			addTarget(y.X)
+		case *ast.CallExpr:
+			if _, isLog := isLoggerCall(y); isLog {
+				return false
+			}
+			switch {
+			case isDeleteCall(y), calleeName(y) == "sort.SliceStable" && len(y.Args) == 2:
+				addTarget(y.Args[0])
+			case len(y.Args) > 0 && t.isMutatorCall(y):
+				a := y.Args[0]
+				if u, ok := a.(*ast.UnaryExpr); ok && u.Op == token.AND {
+					a = u.X
+				}
+				addTarget(a)
+			default:
+				if _, idx, isVoid := t.voidCallee(y); isVoid {
+					for _, i := range idx {
+						addTarget(y.Args[i])
+					}
+					break
+				}
+				if pkg, base := splitQual(calleeName(y)); base != "" {
+					if _, isLocal := t.lookup(pkg); pkg == "" || !isLocal {
+						if _, ok := t.resolve(pkg, base); ok {
+							break // a translated function: what it assigns through is covered above
+						}
+					}
+				}
+				// any other call: translated state must not be passed by reference
+				for _, a := range y.Args {
+					ref := false
+					if u, ok := a.(*ast.UnaryExpr); ok && u.Op == token.AND {
+						a, ref = u.X, true
+					}
+					if selString(a) == "" {
+						continue
+					}
+					if _, ok := outer(a); !ok {
+						continue
+					}
+					if v, ok := t.tryEx(a); ok && !v.ty.dropped() {
+						switch v.ty.K {
+						case "ptr", "list", "map", "smap":
+							ref = true
+						}
+					}
+					if ref {
+						dieT("gotolean: an API step passes translated state by reference (%s) at %s", selString(a), pos(a))
+					}
+				}
+			}
+		}
+		return true
+	})
+	var paths []string
+	for p := range targets {
+		paths = append(paths, p)
+	}
+	sort.Strings(paths)
+	var keep []string
+	for _, p := range paths {
+		covered := false
+		for _, q := range paths {
+			if q != p && strings.HasPrefix(p, q+".") {
+				covered = true
+			}
+		}
+		if !covered {
+			keep = append(keep, p)
+		}
+	}
+	kind := "statement"
+	switch s.(type) {
+	case *ast.IfStmt:
+		kind = "`if` statement"
+	case *ast.RangeStmt, *ast.ForStmt:
+		kind = "loop"
+	}
+	var chain func(i int) string
+	chain = func(i int) string {
+		if i == len(keep) {
+			return rest()
+		}
+		e := targets[keep[i]]
+		f, _ := t.lookup(rootOf(e))
+		ty := f.ty
+		if _, plain := e.(*ast.Ident); !plain {
+			if f.ty.K == "ptr" && t.aliasOf(rootOf(e)) == "" {
+				dieT("gotolean: an API step assigns through the pointer %s, which has not been dereferenced before, at %s", rootOf(e), pos(e))
+			}
+			v, ok := t.tryEx(e)
+			if !ok {
+				dieT("gotolean: an API step assigns to a path outside the subset (%s) at %s", keep[i], pos(e))
+			}
+			ty = v.ty
+		}
+		name := t.newAPI(ty, fmt.Sprintf("the value of `%s` after the API %s at line %d of `%s` (not translated: assumed to return normally and to change nothing else of the translated state)",
+			keep[i], kind, line, t.cur.spec.goName), s)
+		return t.assignPath(e, name, func() string { return chain(i + 1) })
+	}
+	return chain(0)
+}
+
+// sortStable: `sort.SliceStable(xs, func(i, j int) bool { return e })` is `xs = Go.stableSortBy less xs` (library code, mapped
+// to a model function: List.mergeSort, see GoPrelude), `less` being the translated comparator as a function of the two
+// ELEMENTS compared — the body must mention i and j only as `xs[i]` and `xs[j]`.  The comparator is in the Option monad
+// like everything else (`none` = it panics).
+func (t *tr) sortStable(c *ast.CallExpr, rest func() string) string {
+	sl, ok := c.Args[0].(*ast.Ident)
+	fl, ok2 := c.Args[1].(*ast.FuncLit)
+	if !ok || !ok2 {
+		dieT("gotolean: unsupported sort.SliceStable at %s", pos(c))
+	}
+	f, isLocal := t.lookup(sl.Name)
+	if !isLocal || f.ty.K != "list" {
+		dieT("gotolean: sort.SliceStable of something other than a local slice at %s", pos(c))
+	}
+	var ns []string
+	for _, p := range fl.Type.Params.List {
+		if id, ok := p.Type.(*ast.Ident); !ok || id.Name != "int" {
+			dieT("gotolean: unsupported comparator at %s", pos(fl))
+		}
+		for _, n := range p.Names {
+			ns = append(ns, n.Name)
+		}
+	}
+	if len(ns) != 2 || len(fl.Body.List) != 1 {
+		dieT("gotolean: unsupported comparator at %s", pos(fl))
+	}
+	ret, ok := fl.Body.List[0].(*ast.ReturnStmt)
+	if !ok || len(ret.Results) != 1 {
+		dieT("gotolean: unsupported comparator at %s", pos(fl))
+	}
+	if _, hides := t.lookup(ns[0]); hides {
+		dieT("gotolean: the comparator's index %s hides a local at %s", ns[0], pos(fl))
+	}
+	if _, hides := t.lookup(ns[1]); hides {
+		dieT("gotolean: the comparator's index %s hides a local at %s", ns[1], pos(fl))
+	}
+	a, b := t.tmp("a"), t.tmp("b")
+	t.push()
+	saved := t.less
+	t.less = &lessCtx{slice: sl.Name, i: ns[0], j: ns[1], a: a, b: b}
+	nowBefore, apiBefore := t.nowN, len(t.apiTys)
+	v := t.ex(ret.Results[0])
+	t.less = saved
+	t.pop()
+	if t.nowN != nowBefore || len(t.apiTys) != apiBefore {
+		dieT("gotolean: the comparator reads the wall clock or calls the API at %s", pos(fl))
+	}
+	if v.ty.K != "bool" {
+		dieT("gotolean: the comparator does not return a bool at %s", pos(fl))
+	}
+	less := "(fun " + a + " " + b + " =>\n" + wrap(v.binds, "some "+v.term) + ")"
+	r := t.tmp("l")
+	return "Option.bind (Go.stableSortBy " + less + " " + f.lean + ") fun " + r + " =>\n" + t.assignPath(c.Args[0], r, rest)
+}
+
 // voidCallee: the statement `f(a1, …, an)` where f has no Go result and assigns through pointer parameters other than
 // (or beyond) its first one (fnInfo.retParams of a non-mutator): returns f and, per returned parameter, the index of
 // the corresponding argument.
@@ -1674,6 +2418,12 @@ func (t *tr) voidCallee(c *ast.CallExpr) (*fnInfo, []int, bool) {
 	if !ok || !fi.void || fi.mutator || len(fi.retParams) == 0 || fi.nGo != 0 {
 		return nil, nil, false
 	}
+	idx, ok := retArgIndex(fi, c)
+	return fi, idx, ok
+}
+
+// retArgIndex: per returned pointer parameter of fi (fnInfo.retParams), the index of the corresponding argument of the call
+func retArgIndex(fi *fnInfo, c *ast.CallExpr) ([]int, bool) {
 	var names []string
 	for _, p := range paramFields(fi.decl) {
 		for _, n := range p.Names {
@@ -1689,47 +2439,67 @@ func (t *tr) voidCallee(c *ast.CallExpr) (*fnInfo, []int, bool) {
 			}
 		}
 		if found < 0 || found >= len(c.Args) {
-			return nil, nil, false
+			return nil, false
 		}
 		idx = append(idx, found)
 	}
-	return fi, idx, true
+	return idx, true
 }
 
-// voidCall: `f(a1, …, an)` of such a function is the assignment of what f returns (the pointers it assigned
-// through, as the caller sees them afterwards) to the corresponding arguments, which must be assignable paths.
-func (t *tr) voidCall(c *ast.CallExpr, fi *fnInfo, idx []int, rest func() string) string {
-	var bs []bind
-	var as []string
-	for _, a := range c.Args {
-		v := t.ex(a)
-		bs = append(bs, v.binds...)
-		if v.ty.K == "nil" {
-			as = append(as, "none")
-		} else {
-			as = append(as, v.term)
-		}
-	}
-	if fi.spec.ptrEq != "" {
-		dieT("gotolean: call of a function with a pointer-identity parameter at %s", pos(c))
-	}
-	if fi.needsNil {
-		t.needsNil = true
-		as = append(as, "nilSlice")
-	}
-	for i := 0; i < fi.nowN; i++ {
-		if i < len(fi.nowFn) && fi.nowFn[i] {
-			dieT("gotolean: call of a function that reads the wall clock in a loop at %s", pos(c))
-		}
-		as = append(as, t.newWall(c))
+// callAssign: `a, b = f(x, p, …)` / `a := f(…)` where f has Go results and also assigns through pointer parameters
+// (`err = cleanupPods(client, logger, result.NewStatus, pods)`): the Go results are assigned to the left-hand sides, what f
+// returns for the pointers it assigned through is assigned back to the corresponding arguments (assignable paths).
+func (t *tr) callAssign(s *ast.AssignStmt, c *ast.CallExpr, fi *fnInfo, rest func() string) string {
+	idx, ok := retArgIndex(fi, c)
+	if !ok || fi.nGo != len(s.Lhs) {
+		dieT("gotolean: unsupported call of %s at %s", fi.spec.goName, pos(s))
 	}
 	for _, i := range idx {
 		if u, ok := c.Args[i].(*ast.UnaryExpr); ok && u.Op == token.AND {
 			dieT("gotolean: &x passed to a function that assigns through a later pointer parameter at %s", pos(c))
 		}
 	}
+	bs, app := t.applied(fi, c)
 	r := t.tmp("r")
-	bs = append(bs, bind{r, "(" + fi.spec.leanName + " " + strings.Join(as, " ") + ")"})
+	bs = append(bs, bind{r, app})
+	var names []string
+	for range fi.results {
+		names = append(names, t.tmp("t"))
+	}
+	var chain func(i int) string
+	chain = func(i int) string {
+		switch {
+		case i == len(fi.results):
+			return rest()
+		case i < fi.nGo:
+			id, isId := s.Lhs[i].(*ast.Ident)
+			if isId && id.Name == "_" {
+				return chain(i + 1)
+			}
+			if isId && s.Tok == token.DEFINE {
+				if _, here := t.env[len(t.env)-1][id.Name]; !here {
+					ln := t.declare(id.Name, fi.results[i])
+					return "let " + ln + " : " + fi.results[i].lean() + " := " + names[i] + "\n" + chain(i+1)
+				}
+			}
+			return t.assignPath(s.Lhs[i], names[i], func() string { return chain(i + 1) })
+		}
+		return t.assignPath(c.Args[idx[i-fi.nGo]], names[i], func() string { return chain(i + 1) })
+	}
+	return wrap(bs, "let ("+strings.Join(names, ", ")+") := "+r+"\n"+chain(0))
+}
+
+// voidCall: `f(a1, …, an)` of such a function is the assignment of what f returns (the pointers it assigned
+// through, as the caller sees them afterwards) to the corresponding arguments, which must be assignable paths.
+func (t *tr) voidCall(c *ast.CallExpr, fi *fnInfo, idx []int, rest func() string) string {
+	bs, app := t.applied(fi, c)
+	for _, i := range idx {
+		if u, ok := c.Args[i].(*ast.UnaryExpr); ok && u.Op == token.AND {
+			dieT("gotolean: &x passed to a function that assigns through a later pointer parameter at %s", pos(c))
+		}
+	}
+	r := t.tmp("r")
+	bs = append(bs, bind{r, app})
 	names := []string{r}
 	pre := ""
 	if len(idx) > 1 {
@@ -1882,11 +2652,28 @@ func (t *tr) rangeStmt(s *ast.RangeStmt, rest func() string) string {
 		}
 	}
 	if r := rootOf(s.X); r != "" && isCarried[r] {
-		dieT("gotolean: the loop at %s assigns to the slice it ranges over", pos(s))
+		// the body assigns to the variable the range expression starts from: fine when it is a different field of it
+		// (`for … := range params.CanaryNodes { delete(params.PodByNodeName, …) }`: the slice is evaluated once, and a
+		// struct's fields do not overlap), refused when the paths overlap
+		over := selString(s.X)
+		for _, e := range t.assignTargets(s.Body) {
+			if rootOf(e) != r {
+				continue
+			}
+			p := selString(e)
+			if over == "" || p == "" || p == over || strings.HasPrefix(p, over+".") || strings.HasPrefix(over, p+".") {
+				dieT("gotolean: the loop at %s assigns to the slice it ranges over", pos(s))
+			}
+		}
 	}
 	// a pointer variable the body assigns through is carried like in a conditional join: as its pointee when
 	// that already has a name, as the pointer itself otherwise
 	ss := t.slots(carried)
+	for n := range t.wholeAssigned(s.Body.List) {
+		if isCarried[n] && t.aliasOf(n) != "" {
+			dieT("gotolean: the loop at %s replaces the pointer %s, whose pointee is carried by name", pos(s), n)
+		}
+	}
 	// captured locals: every other local the body mentions, in a fixed order
 	loopVar := map[string]bool{}
 	for _, e := range []ast.Expr{s.Key, s.Value} {
@@ -2077,6 +2864,16 @@ func (t *tr) assign(s *ast.AssignStmt, rest func() string) string {
 	if s.Tok != token.DEFINE && s.Tok != token.ASSIGN {
 		dieT("gotolean: unsupported assignment operator at %s", pos(s))
 	}
+	if len(s.Rhs) == 1 {
+		if c, ok := s.Rhs[0].(*ast.CallExpr); ok {
+			if pkg, base := splitQual(calleeName(c)); base != "" {
+				_, isLocal := t.lookup(pkg)
+				if fi, ok := t.resolve(pkg, base); ok && !(pkg != "" && isLocal) && !fi.spec.opaque && len(fi.retParams) > 0 && !fi.mutator && fi.nGo > 0 {
+					return t.callAssign(s, c, fi, rest)
+				}
+			}
+		}
+	}
 	bindName := func(l ast.Expr, ty Ty) string {
 		id, ok := l.(*ast.Ident)
 		if !ok {
@@ -2150,6 +2947,8 @@ func (t *tr) assign(s *ast.AssignStmt, rest func() string) string {
 			tys = fi.results
 		} else if calleeName(c) == "intstrutil.GetValueFromIntOrPercent" {
 			tys = []Ty{tInt(), tPtr(tStr())}
+		} else if calleeName(c) == "limits.CalculatePodToCreateAndDelete" {
+			tys = []Ty{tInt(), tInt()}
 		} else {
 			dieT("gotolean: unknown result types at %s", pos(s))
 		}
@@ -2190,6 +2989,14 @@ func (t *tr) assign(s *ast.AssignStmt, rest func() string) string {
 		}
 		var ln string
 		var ty Ty
+		if define && v.ty.K == "opaque" {
+			// a local whose type is outside the subset: no Lean term; its initialiser was evaluated for its dereferences
+			t.declare(id.Name, v.ty)
+			return wrap(v.binds, rest())
+		}
+		if v.ty.dropped() {
+			dieT("gotolean: assignment of a value without a Lean term at %s", pos(s))
+		}
 		if define {
 			ty = v.ty
 			ln = t.declare(id.Name, ty)
@@ -2298,7 +3105,7 @@ func (t *tr) ifStmt(s *ast.IfStmt, rest func() string) string {
 		case !anyRet:
 			all := append(append([]ast.Stmt{}, s.Body.List...), elseList...)
 			vars := t.assigned(all)
-			ss := t.slots(vars)
+			ss := t.slotsW(vars, t.wholeAssigned(all))
 			pat, _ := slotPattern(ss)
 			if len(vars) == 0 {
 				pat = "_"
@@ -2324,7 +3131,7 @@ func (t *tr) ifStmt(s *ast.IfStmt, rest func() string) string {
 			// the body both returns and falls through: join through a local continuation
 			all := append(append([]ast.Stmt{}, s.Body.List...), elseList...)
 			vars := t.assigned(all)
-			ss := t.slots(vars)
+			ss := t.slotsW(vars, t.wholeAssigned(all))
 			_, params := slotPattern(ss)
 			k := t.tmp("k")
 			callK := func() string {
@@ -2366,7 +3173,15 @@ func (t *tr) loadConsts(repo string) {
 		if strings.HasSuffix(p, "_test.go") || strings.Contains(p, "zz_generated") {
 			continue
 		}
-		f := parse(p)
+		t.fileConsts(parse(p), true)
+	}
+}
+
+// fileConsts: the package-level constants of a file whose value is a literal (string, integer, bool, `n * time.Unit`,
+// `errors.New`); `override` = a later definition of the same name wins (the files of loadConsts, in their order), otherwise
+// a name already known keeps its value (the constants of the files of the translated functions themselves)
+func (t *tr) fileConsts(f *ast.File, override bool) {
+	{
 		for _, d := range f.Decls {
 			gd, ok := d.(*ast.GenDecl)
 			if !ok || (gd.Tok != token.CONST && gd.Tok != token.VAR) {
@@ -2376,6 +3191,9 @@ func (t *tr) loadConsts(repo string) {
 				vs := sp.(*ast.ValueSpec)
 				for i, n := range vs.Names {
 					if i >= len(vs.Values) {
+						continue
+					}
+					if _, known := t.consts[n.Name]; known && !override {
 						continue
 					}
 					switch v := vs.Values[i].(type) {
@@ -2472,13 +3290,22 @@ func (t *tr) translate(fi *fnInfo) string {
 	t.push()
 	var ps []string
 	fi.params = nil
+	t.hasAPI = false
 	for _, p := range paramFields(fi.decl) {
 		ty := t.goType(p.Type)
 		for _, n := range p.Names {
 			ln := t.declare(n.Name, ty)
+			if ty.dropped() {
+				// the API client handle, a logger: in scope, but no parameter of the translated function
+				t.hasAPI = t.hasAPI || ty.K == "api"
+				continue
+			}
 			fi.params = append(fi.params, field{ln, ty})
 			ps = append(ps, "("+ln+" : "+ty.lean()+")")
 		}
+	}
+	if fi.spec.opaque {
+		return "" // only its signature is read
 	}
 	if fi.spec.ptrEq != "" {
 		ps = append(ps, "("+fi.spec.ptrEq+" : Bool)")
@@ -2495,6 +3322,10 @@ func (t *tr) translate(fi *fnInfo) string {
 	t.nowN = 0
 	t.nowFn = nil
 	t.loopIdx = nil
+	t.apiTys = nil
+	t.apiDoc = nil
+	t.less = nil
+	t.opaqueCtx = 0
 	body := t.block(fi.decl.Body.List, func() string {
 		if fi.void {
 			return t.retVoid(fi.decl)
@@ -2515,9 +3346,22 @@ func (t *tr) translate(fi *fnInfo) string {
 			ps = append(ps, fmt.Sprintf("(wallNow%d : Int)", i))
 		}
 	}
+	fi.apiTys = t.apiTys
+	fi.apiDoc = t.apiDoc
+	for i, ty := range t.apiTys {
+		ps = append(ps, fmt.Sprintf("(apiRes%d : %s)", i+1, ty.lean()))
+	}
 	var sb strings.Builder
 	for _, a := range t.aux {
 		sb.WriteString(a + "\n")
+	}
+	if len(t.apiTys) > 0 {
+		// the opaque steps of the function, stated where the definition is
+		fmt.Fprintf(&sb, "/- API steps of `%s` (not translated; what each leaves behind is a parameter):\n", fi.spec.goName)
+		for i, d := range t.apiDoc {
+			fmt.Fprintf(&sb, "   apiRes%d : %s — %s\n", i+1, t.apiTys[i].lean(), d)
+		}
+		sb.WriteString("-/\n")
 	}
 	if fi.spec.fragment != "" {
 		fmt.Fprintf(&sb, "/-- translated from the statement `for … := %s` (line %d) of `%s` (%s): a function of the parameters and\nlocals of `%s` the statement mentions, returning the locals it assigns (%s) -/\n", fi.spec.fragment,
@@ -2802,6 +3646,13 @@ func (t *tr) mutatedParams(fi *fnInfo) []string {
 				}
 				hit[root(l)] = true
 			}
+			if len(s.Rhs) == 1 {
+				if c, ok := s.Rhs[0].(*ast.CallExpr); ok {
+					for _, a := range t.retArgs(c) {
+						hit[root(a)] = true
+					}
+				}
+			}
 		case *ast.IncDecStmt:
 			if _, plain := s.X.(*ast.Ident); !plain {
 				hit[root(s.X)] = true
@@ -2914,6 +3765,22 @@ var decisionFns = []fnSpec{
 	// the function talks to the API server (cleanupPods, the canary-label clean-up) and is not translated
 	{group: "Rolling", file: "controllers/extendeddaemonsetreplicaset/strategy/rollingupdate.go", goName: "ManageDeployment", leanName: "manageDeploymentClassify",
 		fragment: "range params.PodByNodeName"},
+	// group Unknown: ManageUnknown as a whole (strategy/unknown.go): `delete` on the Go map PodByNodeName inside the loop over
+	// the canary nodes, the iteration over the map, the status and the requeue request.  Its API client parameter is unused.
+	{group: "Unknown", file: "controllers/extendeddaemonsetreplicaset/strategy/unknown.go", goName: "ManageUnknown", leanName: "manageUnknown"},
+	// group Deployment: ManageDeployment as a whole (strategy/rollingupdate.go) and cleanupPods (strategy/utils.go).  What
+	// talks to the API server is an opaque step whose results are parameters: deletePodSlice (declared opaque: goroutines,
+	// client.Delete), and the statement `if err = client.List(…); err != nil { … } else { … deletePodLabel … }` of the
+	// canary-label clean-up (apiStep).  sort.SliceStable and limits.CalculatePodToCreateAndDelete are mapped.
+	{group: "Deployment", file: "controllers/extendeddaemonsetreplicaset/strategy/utils.go", goName: "deletePodSlice", leanName: "deletePodSlice", opaque: true},
+	{group: "Deployment", file: "controllers/extendeddaemonsetreplicaset/strategy/utils.go", goName: "cleanupPods", leanName: "cleanupPods"},
+	{group: "Deployment", file: "controllers/extendeddaemonsetreplicaset/strategy/rollingupdate.go", goName: "ManageDeployment", leanName: "manageDeployment"},
+	// group Strategy: the canary role as a whole (ManageCanaryDeployment: manageCanaryStatus, then the label and pod clean-ups —
+	// ensureCanaryPodLabels is an API loop, declared opaque) and the role switch of the replica-set reconciler (applyStrategy, a
+	// method of the reconciler: `r.client` is the API client handle).  Calls into every strategy group.
+	{group: "Strategy", file: "controllers/extendeddaemonsetreplicaset/strategy/canary.go", goName: "ensureCanaryPodLabels", leanName: "ensureCanaryPodLabels", opaque: true},
+	{group: "Strategy", file: "controllers/extendeddaemonsetreplicaset/strategy/canary.go", goName: "ManageCanaryDeployment", leanName: "manageCanaryDeployment"},
+	{group: "Strategy", file: "controllers/extendeddaemonsetreplicaset/controller.go", recv: "Reconciler", goName: "applyStrategy", leanName: "applyStrategy"},
 }
 
 const (
@@ -2922,12 +3789,17 @@ const (
 	podFile     = "pkg/controller/utils/pod/pod.go"
 )
 
-var decisionGroups = []string{"Canary", "Cleanup", "Defaults", "SlowStart", "Conds", "Status", "PodCompare", "CanaryStatus", "Rolling"}
+var decisionGroups = []string{"Canary", "Cleanup", "Defaults", "SlowStart", "Conds", "Status", "PodCompare", "CanaryStatus", "Rolling", "Unknown", "Deployment", "Strategy"}
 
 // groups whose functions a group calls: their generated files are imported, and their functions are
 // translated again here only for their signatures (a failure there fails this group too)
 var groupDeps = map[string][]string{"Status": {"Canary", "Conds"}, "PodCompare": {"Canary", "Conds", "Status"},
-	"CanaryStatus": {"Canary", "Conds", "Status", "PodCompare"}, "Rolling": {"Canary", "Conds", "Status", "PodCompare"}}
+	"CanaryStatus": {"Canary", "Conds", "Status", "PodCompare"}, "Rolling": {"Canary", "Conds", "Status", "PodCompare"},
+	"Unknown": {"Canary", "Conds", "Status", "PodCompare"}, "Deployment": {"Canary", "SlowStart", "Conds", "Status", "PodCompare"},
+	"Strategy": {"Canary", "SlowStart", "Conds", "Status", "PodCompare", "CanaryStatus", "Unknown", "Deployment"}}
+
+// other generated files a group's file imports (Limits.lean: limits.CalculatePodToCreateAndDelete, translated by genLimits)
+var groupImports = map[string][]string{"Deployment": {"EdsModel.Generated.Limits"}, "Strategy": {"EdsModel.Generated.Limits"}}
 
 // genDecisions returns, per group, the content of EdsModel/Generated/Dec<group>.lean.  A group
 // the translator cannot express yields a file that does not compile (and says why), so that only
@@ -2961,6 +3833,9 @@ func genDecisionGroup(repo, group string) (content string) {
 	for _, d := range groupDeps[group] {
 		header += "import EdsModel.Generated.Dec" + d + "\n"
 	}
+	for _, m := range groupImports[group] {
+		header += "import " + m + "\n"
+	}
 	header += "/- GENERATED by tools/extract (gotolean.go) from the Go sources under /repo — do not edit.\n" +
 		"   `none` = the Go function panics (nil dereference, index out of range, division by zero). -/\n" +
 		"set_option linter.unusedVariables false\nnamespace Eds.Generated.Decisions\nopen Eds\n\n"
@@ -2976,7 +3851,7 @@ func genDecisionGroup(repo, group string) (content string) {
 		}
 	}()
 	initTables()
-	t := &tr{fns: map[string]*fnInfo{}, sets: map[string][]string{}, localTypes: map[string]ast.Expr{}}
+	t := &tr{fns: map[string]*fnInfo{}, sets: map[string][]string{}, localTypes: map[string]ast.Expr{}, repo: repo}
 	t.loadConsts(repo)
 	parsed := map[string]*ast.File{}
 	var setDefs []string
@@ -3013,6 +3888,8 @@ func genDecisionGroup(repo, group string) (content string) {
 					}
 				}
 			}
+			// the constants of the files of the group and of the groups it calls into (`cleanCanaryLabelsThreshold`, rollingupdate.go)
+			t.fileConsts(f, false)
 			var decl *ast.FuncDecl
 			for _, d := range f.Decls {
 				fd, ok := d.(*ast.FuncDecl)
@@ -3023,7 +3900,11 @@ func genDecisionGroup(repo, group string) (content string) {
 					decl = fd
 				}
 				if sp.recv != "" && fd.Recv != nil && len(fd.Recv.List) == 1 && len(fd.Recv.List[0].Names) == 1 {
-					if id, ok := fd.Recv.List[0].Type.(*ast.Ident); ok && id.Name == sp.recv {
+					rt := fd.Recv.List[0].Type
+					if st, ok := rt.(*ast.StarExpr); ok {
+						rt = st.X // a pointer receiver (`func (r *Reconciler) applyStrategy`)
+					}
+					if id, ok := rt.(*ast.Ident); ok && id.Name == sp.recv {
 						decl = fd
 					}
 				}
@@ -3081,6 +3962,9 @@ func genDecisionGroup(repo, group string) (content string) {
 	}
 	// pass 2: the other pointer parameters a function assigns through are returned after its Go results
 	for _, fi := range order {
+		if fi.spec.opaque {
+			continue // assumed to assign through none of its arguments
+		}
 		mut := t.mutatedParams(fi)
 		switch {
 		case fi.mutator && fi.nGo == 1:
